@@ -15,7 +15,7 @@ WM = ['readers', 'writers', 'mixed']
 
 def prebuild():
     for b, _, _ in BUILDS:
-        build.build_world('threads', b, ['core', 'thr'], thorough=False)
+        build.build_world('threads', b, ['core', 'io', 'thr'], thorough=False)
 
 
 def death_key(r):
@@ -70,7 +70,7 @@ def check(tier, seed):
     exes = {}
     failed_all = {}
     for b, nq, nt in BUILDS:
-        exe, failed = build.build_world('threads', b, ['core', 'thr'], thorough=thorough)
+        exe, failed = build.build_world('threads', b, ['core', 'io', 'thr'], thorough=thorough)
         exes[b] = exe
         failed_all.update(failed)
     disabled = ','.join(sorted(failed_all))
